@@ -3,7 +3,7 @@
    parser (properties C01, C03, C14). *)
 From Coq Require Import String.
 From MdIt Require Import Prims Tables Ruler Tree Block Inline Core Dispatch.
-From MdIt Require SafeProofs KindProofs NoRootProofs.
+From MdIt Require SafeProofs KindProofs NoRootProofs InlKindProofs InlArityProofs.
 Local Open Scope list_scope.
 Local Open Scope N_scope.
 
@@ -101,4 +101,19 @@ Proof.
   unfold md_pairs_emph, pairs_emph, NoRootProofs.pairs_ok. cbn [ic_pairs]. rewrite !forallb_forall. intros H p Hp. apply in_map_iff in Hp.
   destruct Hp as (q & <- & Hq). specialize (H q Hq). cbn [snd].
   unfold fns_emph, NoRootProofs.fns_ok in *. rewrite forallb_forall in *. intros o Ho. specialize (H o Ho). destruct o as [k|]; [|reflexivity]. destruct k; try discriminate H; reflexivity.
+Qed.
+
+Lemma emph_inlkind m ic ti : md_pairs_emph m = true ->
+  InlKindProofs.pairs_ok (ICfg ic (md_maxnest m) (fst ti) (snd ti) (map (fun p => (fst p, snd (snd p))) (md_pairs m))) = true.
+Proof.
+  unfold md_pairs_emph, pairs_emph, InlKindProofs.pairs_ok. cbn [ic_pairs]. rewrite !forallb_forall. intros H p Hp. apply in_map_iff in Hp.
+  destruct Hp as (q & <- & Hq). specialize (H q Hq). cbn [snd].
+  unfold fns_emph, InlKindProofs.fns_ok in *. rewrite forallb_forall in *. intros o Ho. specialize (H o Ho). destruct o as [k|]; [|reflexivity]. destruct k; try discriminate H; reflexivity.
+Qed.
+Lemma emph_inlarity m ic ti : md_pairs_emph m = true ->
+  InlArityProofs.pairs_ok (ICfg ic (md_maxnest m) (fst ti) (snd ti) (map (fun p => (fst p, snd (snd p))) (md_pairs m))) = true.
+Proof.
+  unfold md_pairs_emph, pairs_emph, InlArityProofs.pairs_ok. cbn [ic_pairs]. rewrite !forallb_forall. intros H p Hp. apply in_map_iff in Hp.
+  destruct Hp as (q & <- & Hq). specialize (H q Hq). cbn [snd].
+  unfold fns_emph, InlArityProofs.fns_ok in *. rewrite forallb_forall in *. intros o Ho. specialize (H o Ho). destruct o as [k|]; [|reflexivity]. destruct k; try discriminate H; reflexivity.
 Qed.
